@@ -119,6 +119,29 @@ type step struct {
 	name       string
 	validators []string
 	nested     bool
+	emits      string // file-name suffix the step's generator appends to GeneratedFilenamePrefix ("" if none)
+}
+
+// emitSuffix finds `file.GeneratedFilenamePrefix + "<suffix>"` inside a function.
+func (p *pkgFuncs) emitSuffix(name string) string {
+	fd := p.funcs[name]
+	if fd == nil {
+		return ""
+	}
+	suffix := ""
+	ast.Inspect(fd.Body, func(n ast.Node) bool {
+		be, ok := n.(*ast.BinaryExpr)
+		if !ok || be.Op != token.ADD {
+			return true
+		}
+		if strings.HasSuffix(exprString(be.X), "GeneratedFilenamePrefix") {
+			if bl, ok := be.Y.(*ast.BasicLit); ok && bl.Kind == token.STRING {
+				suffix = strings.Trim(bl.Value, "\"")
+			}
+		}
+		return true
+	})
+	return suffix
 }
 
 func (p *pkgFuncs) fileSteps() ([]step, error) {
@@ -144,6 +167,7 @@ func (p *pkgFuncs) fileSteps() ([]step, error) {
 			}
 		}
 		st.validators = ded
+		st.emits = p.emitSuffix(cn)
 		steps = append(steps, st)
 	}
 	for _, s := range gf.Body.List {
@@ -199,7 +223,7 @@ func leanStrList(xs []string) string {
 func extractWiring() (string, error) {
 	var b strings.Builder
 	b.WriteString(header("Wiring", "internal/httpgen/*.go, internal/clientgen/*.go, internal/tsservergen/generator.go (generateFile call sequences)"))
-	b.WriteString("/-- one step of `generateFile`: (called function, validator-like functions it reaches in order, does it recurse into nested messages). -/\nabbrev Step := String × List String × Bool\n")
+	b.WriteString("/-- one step of `generateFile`: (called function, validator-like functions it reaches in order, does it recurse into nested messages). -/\nabbrev Step := String × List String × Bool\n/-- (step, file-name suffix it emits). -/\nabbrev Emit := String × String\n")
 	for _, pk := range [][2]string{{"goHttp", "internal/httpgen"}, {"goClient", "internal/clientgen"}} {
 		p, err := loadPkg(pk[1])
 		if err != nil {
@@ -216,6 +240,19 @@ func extractWiring() (string, error) {
 				sep = ""
 			}
 			fmt.Fprintf(&b, "  (%s, %s, %v)%s\n", leanStr(s.name), leanStrList(s.validators), s.nested, sep)
+		}
+		b.WriteString("]\n")
+		fmt.Fprintf(&b, "def %sEmits : List Emit := [", pk[0])
+		first := true
+		for _, s := range steps {
+			if s.emits == "" {
+				continue
+			}
+			if !first {
+				b.WriteString(", ")
+			}
+			first = false
+			fmt.Fprintf(&b, "(%s, %s)", leanStr(s.name), leanStr(s.emits))
 		}
 		b.WriteString("]\n")
 		// does Generate() collect the global unwrap table before the per-file loop, and skip !file.Generate files
